@@ -151,7 +151,25 @@ class Scen:
                 if hold:
                     self.holding = True
                     await self.holder_gate
-                body = await resp.read()
+                slow = self.case.get("slow_consumer") if name == "main" else None
+                if slow:
+                    # the whole body is there; the application takes it piece by piece, thinking 2 s in between
+                    body = b""
+                    for _ in range(6):
+                        if slow == "readline":
+                            piece = await resp.content.readline()
+                        elif slow == "readchunk":
+                            piece = (await resp.content.readchunk())[0]
+                        elif slow == "readuntil":
+                            piece = await resp.content.readuntil(b"\n")
+                        else:
+                            piece = await resp.content.read(3)
+                        body += piece
+                        if not piece:
+                            break
+                        await asyncio.sleep(2)
+                else:
+                    body = await resp.read()
                 self.results[name] = ("ok", resp.status, body)
         except asyncio.CancelledError:
             self.results[name] = ("cancelled",)
@@ -201,6 +219,15 @@ class Scen:
             while peer.answered < len(reqs):
                 m = reqs[peer.answered]
                 path = m.target.decode()
+                if path == "/main" and self.case.get("slow_consumer"):
+                    if not m.complete:
+                        break
+                    peer.answered += 1
+                    # three of four lines arrive at once, the last one never: the exchange is still open while the
+                    # application works through what it has
+                    peer.send(b"HTTP/1.1 200 OK\r\nContent-Length: 12\r\n\r\nl1\nl2\nl3\n")
+                    acted = True
+                    continue
                 if path == "/main" and not self.case.get("no_stall"):
                     ph = self.phase
                     if ph in ("pool", "dns", "connect", "body-write"):
@@ -302,9 +329,11 @@ class Scen:
             if covered:
                 self.P(f"no-timeout:{self.kind}:{self.phase}", f"the request stalls in phase {self.phase} with {self.kind}={self.T} and never fails (t={self.loop.time():g})")
         elif main and main[0] == "timeout":
-            bound = self.T + (1.0 if self.T > 5 else 0.0) + 1e-6
+            bound = self.T + (1.0 if self.T > 5 else 0.0) + 1e-6 + (2.0 if case.get("slow_consumer") else 0.0)   # noticed at its next read
             if self.times["main"] > bound:
                 self.P(f"timeout-late:{self.kind}:{self.phase}", f"{self.kind}={self.T}: failed after {self.times['main']:g}s (bound {bound:g})")
+        elif main and main[0] == "ok" and case.get("slow_consumer"):
+            self.P(f"total-timeout-not-enforced:{case['slow_consumer']}", f"total={self.T}: the exchange took {self.times.get('main'):g}s (a slow consumer) and ended normally with {main[2]!r}")
         elif main and main[0] == "ok" and covered:
             self.P(f"stalled-request-succeeded:{self.phase}", f"result {main}")
         elif main and main[0] == "error" and covered:
@@ -383,6 +412,10 @@ def cases(quick):
         for first in (False, True):
             out.append({"name": f"dns-share/{kind}={T:g}/{'sib' if first else 'main'}-owns-lookup", "phase": "before-status", "timeout": (kind, T),
                         "sibling": True, "sib_first": first, "faults": ["cancel"], "no_stall": True})
+    # the peer is prompt, the application is slow: the total timeout still bounds the exchange, whatever read API is used
+    for how in ("read3", "readline", "readchunk", "readuntil"):
+        out.append({"name": f"slow-consumer/{how}/total=3", "phase": "before-status", "timeout": ("total", 3.0), "sibling": False, "faults": [], "no_stall": True,
+                    "slow_consumer": how})
     # no stall at all: timeouts must not fire on a healthy exchange
     for kind in ("total", "connect", "sock_connect", "sock_read"):
         out.append({"name": f"healthy/{kind}=3", "phase": "before-status", "timeout": (kind, 3.0), "sibling": True, "faults": [], "no_stall": True})
